@@ -144,6 +144,32 @@ def iter_program(rng):
             L.append("print(%s.iter().filter(|c| c.len() > %d).map(|c| \"<${c}>\").collect());" % (s, r.below(4)))
         else:
             L.append("{ var it = %s.iter(); print(it.next()); print(it.next()); for rest in it { print(rest.to_bytes()); } }" % s)
+    for _ in range(r.range(0, 2)):
+        k = r.below(3)
+        if k == 0:
+            # an iterator that has ended stays ended: asked again directly, by a second loop, by a second collect
+            src = r.choice(["[1, 2, 3]", "(4, 5)", "0..3", "3..0", "2..2", "-1..2", "\"ab\"", "Count.new(2)", "[1, 2, 3].iter().map(|v| v * 2)",
+                            "(0..4).iter().filter(|v| v % 2 == 0)", "(5..2).iter().map(|v| [v])", "[]", "\"\""])
+            L.append("{ var it = (%s).iter(); var n = 0; for x in it { n = n + 1; } print(n);" % src)
+            L.append("  for k in 0..3 { var again = it.next(); print(type(again) == StopIter); }")
+            L.append("  var m = 0; for x in it { m = m + 1; if m > 5 { break; } } print(m);")
+            L.append("  var m2 = 0; for x in it.map(|v| v) { m2 = m2 + 1; if m2 > 5 { break; } } print(m2); print(type(it.next()) == StopIter); }")
+        elif k == 1:
+            # every stage of a chain logs its calls: the order in which stages see the elements is part of the meaning
+            src = r.choice(["[1, 2, 3, 4, 5, 6]", "0..6", "(3, 1, 2)", "\"abcd\"", "Count.new(5)"])
+            chain = "(%s).iter()" % src
+            for si in range(r.range(2, 4)):
+                if r.chance(50):
+                    chain += ".filter(|v| { log.push([%d, v]); return %s; })" % (si, r.choice(["true", "v != 2", "v != \"b\"", "log.len() % 2 == 0", "v == v"]))
+                else:
+                    chain += ".map(|v| { log.push([%d, v]); return %s; })" % (si, r.choice(["v", "[v]", "(v, %d)" % si]))
+            end = r.choice([".collect()", ".reduce(|a, v| { log.push([\"r\", v]); a.push(v); return a; }, [])"])
+            L.append("{ var log = []; print(%s%s); print(log); }" % (chain, end))
+        else:
+            # guard-then-test: a later filter may rely on what an earlier one has excluded
+            L.append("print([1, \"a\", 3, nil, 5, [6], 0.5].iter().filter(|v| type(v) == Num).filter(|v| v > %s).%s);" % (
+                r.choice(["2", "0", "4"]), r.choice(["collect()", "map(|v| v * 2).collect()", "filter(|v| v < 5).collect()"])))
+            L.append("try { print([1, \"a\", 3].iter().filter(|v| v > 0).filter(|v| type(v) == Num).collect()); } catch e { print(type(e)); print(e.context); }")
     for _ in range(r.range(3, 9)):
         c = r.below(100)
         if c < 25:
